@@ -30,11 +30,23 @@ SPACES = {
 }
 
 
+# deterministic shapes at a ladder of sizes; and a few very large stars / fans (line length thresholds)
+SPACES["quick"] += engine_g.family_specs(list(range(4, 13)) + [16, 17])
+SPACES["quick"] += engine_g.family_specs([257, 258, 259, 260], shapes=("star-out", "fan-parallel"))
+SPACES["thorough"] += engine_g.family_specs(list(range(4, 13)) + [16, 17, 32, 33, 64, 65])
+SPACES["thorough"] += engine_g.family_specs([129, 257, 258, 259, 260, 1025], shapes=("star-out", "fan-parallel", "chain-D"))
+
+
 def rf_angle(v):
     return f"<{v.i}>"
 
 
-PERM = {0: 2, 1: 0, 2: 3, 3: 1}
+class _Perm(dict):
+    def __missing__(self, i):          # an injective key for any label: even labels first, descending
+        return (i % 2) * 10 ** 6 - i
+
+
+PERM = _Perm({0: 2, 1: 0, 2: 3, 3: 1})
 RFUNCS = {"none": None, "angle": rf_angle}
 SORTS = {
     "none": None,
@@ -45,6 +57,11 @@ SORTS = {
 
 
 def member_lists(nv):
+    if nv > 4:
+        # larger graphs: all, all minus the middle vertex, the even ones, reversed
+        mid = nv // 2
+        return [tuple(range(nv)), tuple(i for i in range(nv) if i != mid), tuple(range(0, nv, 2)),
+                tuple(reversed(range(nv)))]
     out = [()]
     for n in range(1, nv + 1):
         out += list(itertools.combinations(range(nv), n))
@@ -122,7 +139,7 @@ def per_state(spec, seq, w):
 
 
 def _plain(spec):
-    return {k: (list(v) if isinstance(v, tuple) else v) for k, v in spec.items()}
+    return {k: (list(v) if isinstance(v, tuple) else v) for k, v in spec.items() if k != "explicit"}
 
 
 def replay_single(rec, verbose=False):
